@@ -1,6 +1,6 @@
 (* Proofs about Model/Optim.v (Optimal / Minimize, property C03). *)
 From Coq Require Import List ZArith Lia Bool Permutation Sorted.
-From GS Require Import Spec.Base Spec.PB Spec.Solver Model.Optim.
+From GS Require Import Spec.Base Spec.PB Spec.Solver Model.PBNorm Proofs.PBNorm Model.Optim.
 Import ListNotations.
 Open Scope Z_scope.
 
@@ -76,10 +76,9 @@ Qed.
 
 (* The constraint added after a model of cost [bound] was found means
    "the cost is at most bound - 1".  No sign condition on the weights and no
-   distinctness of the variables is needed: both are needed only for the
-   treatment of the constraint *inside* the solver (NewPBClause panics if the
-   degree is < 1, the PB propagation supposes positive weights, and AppendClause
-   panics on a repeated literal). *)
+   distinctness of the variables is needed.  The constraint really added is this
+   one after GtEq / saturation / sorting ([bound_pbc], below); distinct variables
+   matter only *inside* the solver (AppendClause panics on a repeated literal). *)
 Theorem strengthen_equiv : forall (c : cost) (m : model) (bound : Z),
   lits_nonzero c ->
   (lhs m (map (fun '(w, l) => (w, - l)) c) >= total_weight c - bound + 1
@@ -91,16 +90,85 @@ Proof.
   - apply map_ext. intros [w l]. reflexivity.
 Qed.
 
-Lemma sat_bound : forall c m d, lits_nonzero c ->
-  sat_pbc m (PBC (hypothesis c) d) = true <-> d <= total_weight c - cost_of m c.
+Lemma nonneg_terms_Forall : forall c, nonneg_terms c = true <-> Forall (fun t => 0 <= fst t) c.
 Proof.
-  intros c m d H. unfold sat_pbc; cbn [terms degree]. rewrite lhs_hypothesis by exact H.
-  apply Z.leb_le.
+  intros c. unfold nonneg_terms. rewrite forallb_forall, Forall_forall.
+  split; intros H t Ht; specialize (H t Ht); apply Z.leb_le; exact H.
 Qed.
 
-Theorem bound_pbc_equiv : forall c m bound, lits_nonzero c ->
-  sat_pbc m (bound_pbc c bound) = true <-> cost_of m c <= bound - 1.
-Proof. intros c m bound H. unfold bound_pbc. rewrite sat_bound by exact H. lia. Qed.
+Lemma lhs_nonneg : forall m ts, nonneg_terms ts = true -> 0 <= lhs m ts.
+Proof.
+  intros m ts H. apply nonneg_terms_Forall in H. induction H as [|t ts Ht _ IH]; simpl; [lia|].
+  unfold term_val. destruct (lit_val m (snd t)); lia.
+Qed.
+
+Lemma combine_map_fst_snd : forall ts : list term, combine (map fst ts) (map snd ts) = ts.
+Proof. induction ts as [|[w l] ts IH]; cbn; [reflexivity|]. f_equal. exact IH. Qed.
+
+Lemma trim_zeros_Forall : forall (Q : term -> Prop) l, Forall Q l -> Forall Q (trim_zeros l).
+Proof.
+  intros Q l H. induction H as [|t r Ht _ IH]; [constructor|].
+  cbn [trim_zeros]. destruct (trim_zeros r) as [|u r'].
+  - destruct (fst t =? 0); constructor; [exact Ht|constructor].
+  - constructor; assumption.
+Qed.
+
+Lemma hypothesis_nonzero : forall c, lits_nonzero c -> lits_nonzero (hypothesis c).
+Proof.
+  intros c H. unfold hypothesis, lits_nonzero. apply trim_zeros_Forall.
+  eapply Permutation_Forall; [apply sort_desc_perm|].
+  apply Forall_map. eapply Forall_impl; [|exact H]. intros t Ht. cbn beta in Ht. unfold neg_term; cbn [snd]. intro E. apply Ht. apply Z.opp_inj. exact E.
+Qed.
+
+(* boundConstr: GtEq, saturation and sorting keep the meaning "sum >= d" ... *)
+Lemma bound_constr_sem : forall hyp d b (m : model), lits_nonzero hyp ->
+  bound_constr hyp d = Some b -> sat_pbc m b = (d <=? lhs m hyp).
+Proof.
+  intros hyp d b m Hnz E. unfold bound_constr in E.
+  destruct (pb_clause_spec _ _ E (gt_eq_nonneg _ _ _)) as [_ [_ [_ Hs]]].
+  rewrite Hs, gt_eq_spec.
+  - unfold sat_uc; cbn [u_terms u_rel u_rhs]. rewrite combine_map_fst_snd. reflexivity.
+  - rewrite !map_length. reflexivity.
+  - intros l Hl. apply in_map_iff in Hl. destruct Hl as [t [<- Ht]].
+    unfold lits_nonzero in Hnz. rewrite Forall_forall in Hnz. apply Hnz. exact Ht.
+Qed.
+
+(* ... and NewPBClause does not panic as soon as some assignment violates it. *)
+Lemma bound_constr_some : forall hyp d (m : model), lits_nonzero hyp ->
+  lhs m hyp < d -> exists b, bound_constr hyp d = Some b.
+Proof.
+  intros hyp d m Hnz Hlt. destruct (bound_constr hyp d) as [b|] eqn:E; [eauto|].
+  exfalso. unfold bound_constr in E. apply pb_clause_none in E.
+  set (g := gt_eq (map snd hyp) (map fst hyp) d) in *.
+  assert (Hs : sat_pbc m (pbc_of_gopb g) = (d <=? lhs m hyp)).
+  { unfold g. rewrite gt_eq_spec.
+    - unfold sat_uc; cbn [u_terms u_rel u_rhs]. rewrite combine_map_fst_snd. reflexivity.
+    - rewrite !map_length. reflexivity.
+    - intros l Hl. apply in_map_iff in Hl. destruct Hl as [t [<- Ht]].
+      unfold lits_nonzero in Hnz. rewrite Forall_forall in Hnz. apply Hnz. exact Ht. }
+  replace (d <=? lhs m hyp) with false in Hs by (symmetry; apply Z.leb_gt; exact Hlt).
+  unfold sat_pbc in Hs. apply Z.leb_gt in Hs.
+  pose proof (lhs_nonneg m _ (gt_eq_nonneg (map snd hyp) (map fst hyp) d)) as Hp. fold g in Hp.
+  assert (degree (pbc_of_gopb g) = g_atleast g).
+  { unfold pbc_of_gopb. destruct (g_ws g); reflexivity. }
+  lia.
+Qed.
+
+Theorem bound_pbc_equiv : forall (c : cost) (m : model) bound b, lits_nonzero c ->
+  bound_pbc c bound = Some b ->
+  (sat_pbc m b = true <-> cost_of m c <= bound - 1).
+Proof.
+  intros c m bound b H E. unfold bound_pbc in E.
+  rewrite (bound_constr_sem _ _ _ m (hypothesis_nonzero c H) E), lhs_hypothesis by exact H.
+  rewrite Z.leb_le. lia.
+Qed.
+
+Theorem bound_pbc_no_panic : forall (c : cost) (m : model), lits_nonzero c ->
+  exists b, bound_pbc c (cost_of m c) = Some b.
+Proof.
+  intros c m H. unfold bound_pbc. apply (bound_constr_some _ _ m (hypothesis_nonzero c H)).
+  rewrite lhs_hypothesis by exact H. lia.
+Qed.
 
 Lemma cost_abs_bound : forall m c, - abs_weight c <= cost_of m c <= abs_weight c.
 Proof.
@@ -108,10 +176,12 @@ Proof.
   fold (abs_weight c). unfold term_val. destruct (lit_val m (snd t)); lia.
 Qed.
 
-Lemma nonneg_terms_Forall : forall c, nonneg_terms c = true <-> Forall (fun t => 0 <= fst t) c.
+Lemma cost_min_bound : forall m c, min_cost_bound c <= cost_of m c.
 Proof.
-  intros c. unfold nonneg_terms. rewrite forallb_forall, Forall_forall.
-  split; intros H t Ht; specialize (H t Ht); apply Z.leb_le; exact H.
+  intros m c. unfold cost_of. induction c as [|t c IH]; simpl; [lia|].
+  fold (min_cost_bound c). unfold term_val.
+  destruct (lit_val m (snd t)); destruct (fst t <? 0) eqn:E;
+    try apply Z.ltb_lt in E; try apply Z.ltb_ge in E; lia.
 Qed.
 
 Lemma cost_nonneg_bound : forall m c, nonneg_terms c = true ->
@@ -191,16 +261,12 @@ Definition best (m : model) : Prop :=
 
 Definition Post (r : oresult) (acc : list oresult) : Prop :=
   exists m acc0, r = OSat m (cost_of m c) /\ acc = r :: acc0 /\
-    length m = n /\ sat_problem m P = true /\
-    (cost_of m c = 0 \/ best m) /\ Forall elem_ok acc /\ incr acc.
-
-Definition PanicPost (acc : list oresult) : Prop :=
-  exists m, length m = n /\ sat_problem m P = true /\ total_weight c - cost_of m c + 1 < 1.
+    length m = n /\ sat_problem m P = true /\ best m /\ Forall elem_ok acc /\ incr acc.
 
 Definition step_spec (m : model) (s : ostep) : Prop :=
   match s with
   | SDone r acc' => Post r acc'
-  | SPanic acc' => PanicPost acc'
+  | SPanic acc' => False
   | SMore P2 m2 acc2 => Inv P2 m2 acc2
   end.
 
@@ -220,43 +286,40 @@ Proof.
   { constructor; [|exact Hel]. exists m. auto. }
   assert (Hinc' : incr (OSat m (cost_of m c) :: acc)).
   { constructor; [exact Hinc|]. exact Hlt. }
-  destruct (cost_of m c =? 0) eqn:E0.
+  destruct (cost_of m c =? min_cost_bound c) eqn:E0.
   { apply Z.eqb_eq in E0. split; [|exact I]. cbn [step_spec].
-    exists m, acc. repeat split; auto. }
-  destruct (total_weight c - cost_of m c + 1 <? 1) eqn:Ed.
-  { apply Z.ltb_lt in Ed. split; [|exact I]. cbn [step_spec]. exists m. auto. }
-  apply Z.ltb_ge in Ed.
-  set (d := total_weight c - cost_of m c + 1) in *.
-  set (P2 := PBC (hypothesis c) d :: P').
+    exists m, acc. repeat split; auto.
+    intros m' _ _. pose proof (cost_min_bound m' c). lia. }
+  destruct (bound_pbc_no_panic c m Hnz) as [b Eb]. rewrite Eb.
+  assert (Hbd : forall m', sat_pbc m' b = true <-> cost_of m' c <= cost_of m c - 1).
+  { intros m'. apply (bound_pbc_equiv c m' _ b Hnz Eb). }
+  set (P2 := b :: P').
   pose proof (solve_ok n P2) as Hok.
-  assert (Hsplit : forall m', sat_problem m' P2 =
-                    sat_pbc m' (PBC (hypothesis c) d) && sat_problem m' P') by reflexivity.
+  assert (Hsplit : forall m', sat_problem m' P2 = sat_pbc m' b && sat_problem m' P') by reflexivity.
   destruct (solve n P2) as [m2|].
   - destruct Hok as [Hl2 Hs2]. rewrite Hsplit in Hs2. apply andb_true_iff in Hs2.
-    destruct Hs2 as [Hb2 Hs2']. apply (sat_bound c m2 d Hnz) in Hb2.
-    assert (Hc2 : cost_of m2 c <= cost_of m c - 1) by (unfold d in Hb2; lia).
+    destruct Hs2 as [Hb2 Hs2']. pose proof (proj1 (Hbd m2) Hb2) as Hc2.
     split; [|exact Hc2]. cbn [step_spec].
-    split; [exact Hl2|]. split; [rewrite Hsplit; apply andb_true_iff; split;
-      [apply (sat_bound c m2 d Hnz); exact Hb2|exact Hs2']|].
+    split; [exact Hl2|]. split; [rewrite Hsplit, Hb2, Hs2'; reflexivity|].
     split.
     { intros m' H. rewrite Hsplit in H. apply andb_true_iff in H. apply Himp. apply H. }
     split.
     { intros m' Hl' HsP' Hf. rewrite Hsplit in Hf. apply andb_false_iff in Hf.
       destruct Hf as [Hf|Hf].
-      - assert (~ d <= total_weight c - cost_of m' c).
-        { intro Hd. apply (sat_bound c m' d Hnz) in Hd. congruence. }
-        unfold d in *. lia.
+      - assert (~ cost_of m' c <= cost_of m c - 1).
+        { intro Hd. apply (Hbd m') in Hd. congruence. }
+        lia.
       - specialize (Hexc m' Hl' HsP' Hf). lia. }
     split; [exact Hel'|]. split; [|exact Hinc'].
     constructor; [cbn [oweight]; lia|].
     eapply Forall_impl; [|exact Hlt]. cbn beta. intros r Hr. lia.
   - split; [|exact I]. cbn [step_spec].
-    exists m, acc. repeat split; auto. right.
+    exists m, acc. repeat split; auto.
     intros m' Hl' HsP'. specialize (Hok m' Hl'). rewrite Hsplit in Hok.
     apply andb_false_iff in Hok. destruct Hok as [Hf|Hf].
-    + assert (~ d <= total_weight c - cost_of m' c).
-      { intro Hd. apply (sat_bound c m' d Hnz) in Hd. congruence. }
-      unfold d in *. lia.
+    + assert (~ cost_of m' c <= cost_of m c - 1).
+      { intro Hd. apply (Hbd m') in Hd. congruence. }
+      lia.
     + specialize (Hexc m' Hl' HsP' Hf). lia.
 Qed.
 
@@ -292,10 +355,9 @@ Lemma min_step_agrees : forall P' m acc,
   min_step solve n c P' m = mstep_of (opt_step solve n c P' m acc).
 Proof.
   intros P' m acc. unfold min_step, opt_step.
-  destruct (cost_of m c =? 0) eqn:E0.
-  - apply Z.eqb_eq in E0. cbn [mstep_of]. rewrite E0. reflexivity.
-  - destruct (total_weight c - cost_of m c + 1 <? 1); [reflexivity|].
-    destruct (solve n _); reflexivity.
+  destruct (cost_of m c =? min_cost_bound c); [reflexivity|].
+  destruct (bound_pbc c (cost_of m c)); [|reflexivity].
+  destruct (solve n _); reflexivity.
 Qed.
 
 Lemma min_iter_agrees : forall k P' m acc,
@@ -312,8 +374,8 @@ Qed.
 Lemma opt_step_not_unsat : forall P' m acc a, opt_step solve n c P' m acc <> SDone OUnsat a.
 Proof.
   intros P' m acc a. unfold opt_step.
-  destruct (cost_of m c =? 0); [discriminate|].
-  destruct (_ <? 1); [discriminate|]. destruct (solve n _); discriminate.
+  destruct (cost_of m c =? min_cost_bound c); [discriminate|].
+  destruct (bound_pbc c (cost_of m c)); [|discriminate]. destruct (solve n _); discriminate.
 Qed.
 
 Lemma opt_iter_not_unsat : forall k P' m acc a, opt_iter solve n c k P' m acc <> SDone OUnsat a.
@@ -342,28 +404,21 @@ Section Entry.
 Variable solve : solver.
 Hypothesis solve_ok : solver_ok solve.
 
-Definition run_spec (n : nat) (P : problem) (c : cost) (x : orun) : Prop :=
-  match x with
-  | RDone OUnsat s => ~ PSatisfiable n P /\ s = [OUnsat]
-  | RDone (OSat m w) s =>
-      w = cost_of m c /\ length m = n /\ sat_problem m P = true /\
-      (w = 0 \/ best n P c m) /\ stream_ok n P c s (OSat m w)
-  | RPanic s =>
-      exists m, length m = n /\ sat_problem m P = true /\
-                (cost_wf n c = false \/ total_weight c - cost_of m c + 1 < 1)
-  | RFuel => False
-  end.
-
-(* Valid for every cost function, negative weights included. *)
-Theorem optimal_run_spec : forall n P (c : cost), run_spec n P c (optimal_run solve n P (Some c)).
+(* Any integer weights; the only hypothesis is that the cost literals are non-zero and
+   within the n variables.  No out-of-fuel, no panic, and the result is optimal. *)
+Theorem optimal_run_correct : forall n P (c : cost), cost_wf n c = true ->
+  exists r s, optimal_run solve n P (Some c) = RDone r s /\
+    match r with
+    | OUnsat => ~ PSatisfiable n P /\ s = [OUnsat]
+    | OSat m w => is_optimum n P c m /\ w = cost_of m c /\ stream_ok n P c s r
+    end.
 Proof.
-  intros n P c. unfold optimal_run, optimal_fuel, oc_fuel.
+  intros n P c Hwf. unfold optimal_run, optimal_fuel, oc_fuel.
   pose proof (solve_ok n P) as Hok.
   destruct (solve n P) as [m|] eqn:Es.
-  2:{ cbn [run_spec]. split; [|reflexivity]. eapply solver_ok_none; eauto. }
-  destruct Hok as [Hl Hs].
-  destruct (cost_wf n c) eqn:Hwf.
-  2:{ cbn [run_spec]. exists m. auto. }
+  2:{ exists OUnsat, [OUnsat]. split; [reflexivity|]. split; [|reflexivity].
+      eapply solver_ok_none; eauto. }
+  destruct Hok as [Hl Hs]. rewrite Hwf.
   pose proof (cost_wf_nonzero _ _ Hwf) as Hnz.
   assert (HI : Inv n P c P m []).
   { split; [exact Hl|]. split; [exact Hs|]. split; [auto|]. split.
@@ -372,62 +427,48 @@ Proof.
   destruct (opt_iter_inv solve solve_ok n P c Hnz (default_fuel c) P m [] HI) as [H D].
   destruct (opt_iter solve n c (default_fuel c) P m []) as [r a|a|P1 m1 a1].
   - cbn [step_spec] in H. destruct H as [m0 [acc0 [Er [Ea [Hl0 [Hs0 [Hb [Hel Hinc]]]]]]]].
-    subst r. cbn [run_spec]. split; [reflexivity|]. split; [exact Hl0|]. split; [exact Hs0|].
-    split; [exact Hb|]. split; [apply Forall_rev; exact Hel|].
+    exists r, (rev a). split; [reflexivity|]. subst r.
+    split; [split; [exact Hl0|split; [exact Hs0|exact Hb]]|]. split; [reflexivity|].
+    split; [apply Forall_rev; exact Hel|].
     split; [apply SSorted_rev in Hinc; exact Hinc|].
     rewrite Ea. cbn [rev]. apply last_last.
-  - cbn [step_spec] in H. destruct H as [m0 [Hl0 [Hs0 Hd]]]. cbn [run_spec].
-    exists m0. auto.
-  - cbn [step_spec step_decr] in H, D. cbn [run_spec].
+  - cbn [step_spec] in H. contradiction.
+  - cbn [step_spec step_decr] in H, D. exfalso.
     pose proof (default_fuel_enough c) as F.
     pose proof (cost_abs_bound m c). pose proof (cost_abs_bound m1 c). lia.
 Qed.
 
-Lemma best_zero : forall n P c m, nonneg_terms c = true -> cost_of m c = 0 -> best n P c m.
+(* A cost literal that is 0 or names a variable above n: s.model[lit.Var()] is out of
+   range as soon as a model is found. *)
+Theorem optimal_run_ill_formed : forall n P (c : cost), cost_wf n c = false ->
+  optimal_run solve n P (Some c) = RDone OUnsat [OUnsat] /\ ~ PSatisfiable n P \/
+  optimal_run solve n P (Some c) = RPanic [] /\ PSatisfiable n P.
 Proof.
-  intros n P c m Hn H0 m' _ _. pose proof (cost_nonneg_bound m' c Hn). lia.
+  intros n P c Hwf. unfold optimal_run, optimal_fuel, oc_fuel.
+  pose proof (solve_ok n P) as Hok.
+  destruct (solve n P) as [m|] eqn:Es.
+  - right. rewrite Hwf. split; [reflexivity|]. exists m. exact Hok.
+  - left. split; [reflexivity|]. eapply solver_ok_none; eauto.
 Qed.
 
-(* With weights >= 0 and well-formed cost literals: no panic, and the result is optimal. *)
-Theorem optimal_run_nonneg : forall n P (c : cost),
-  nonneg_terms c = true -> cost_wf n c = true ->
-  exists r s, optimal_run solve n P (Some c) = RDone r s /\
-    match r with
-    | OUnsat => ~ PSatisfiable n P /\ s = [OUnsat]
-    | OSat m w => is_optimum n P c m /\ w = cost_of m c /\ stream_ok n P c s r
-    end.
-Proof.
-  intros n P c Hn Hwf. pose proof (optimal_run_spec n P c) as H.
-  destruct (optimal_run solve n P (Some c)) as [|s|r s]; unfold run_spec in H.
-  - contradiction.
-  - destruct H as [m [_ [_ [H|H]]]]; [congruence|].
-    pose proof (cost_nonneg_bound m c Hn). lia.
-  - exists r, s. split; [reflexivity|]. destruct r as [|m w]; [exact H|].
-    destruct H as [Hw [Hl [Hs [Hb Hst]]]]. split; [|split; [exact Hw|exact Hst]].
-    split; [exact Hl|]. split; [exact Hs|].
-    destruct Hb as [H0|Hb]; [|exact Hb]. apply best_zero; [exact Hn|lia].
-Qed.
-
-Theorem optimal_correct : forall n P (c : cost),
-  nonneg_terms c = true -> cost_wf n c = true ->
+Theorem optimal_correct : forall n P (c : cost), cost_wf n c = true ->
   match fst (optimal solve n P (Some c)) with
   | OUnsat => ~ PSatisfiable n P
   | OSat m w => is_optimum n P c m /\ w = cost_of m c
   end.
 Proof.
-  intros n P c Hn Hwf. destruct (optimal_run_nonneg n P c Hn Hwf) as [r [s [E H]]].
+  intros n P c Hwf. destruct (optimal_run_correct n P c Hwf) as [r [s [E H]]].
   unfold optimal. rewrite E. cbn [fst]. destruct r as [|m w]; tauto.
 Qed.
 
-Theorem optimal_stream : forall n P (c : cost),
-  nonneg_terms c = true -> cost_wf n c = true ->
+Theorem optimal_stream : forall n P (c : cost), cost_wf n c = true ->
   let (r, s) := optimal solve n P (Some c) in
   match r with
   | OUnsat => s = [OUnsat]
   | OSat _ _ => stream_ok n P c s r
   end.
 Proof.
-  intros n P c Hn Hwf. destruct (optimal_run_nonneg n P c Hn Hwf) as [r [s [E H]]].
+  intros n P c Hwf. destruct (optimal_run_correct n P c Hwf) as [r [s [E H]]].
   unfold optimal. rewrite E. destruct r as [|m w]; tauto.
 Qed.
 
@@ -462,8 +503,10 @@ Proof.
   exfalso. exact (opt_iter_not_unsat solve n c _ _ _ _ _ E).
 Qed.
 
-(* Both entry points agree, whatever the cost function (panic and out-of-fuel included,
-   both rendered as -1 by [minimize] and as OUnsat by [optimal]). *)
+(* Both entry points agree, whatever the cost function: Minimize returns the weight of
+   Optimal's result and -1 for Unsat.  (With negative weights -1 is also a possible
+   cost: the integer alone does not tell Unsat from an optimum of -1; s.Model() does,
+   see minimize_model_agrees.) *)
 Theorem minimize_agrees : forall n P oc,
   minimize solve n P oc = oweight (fst (optimal solve n P oc)).
 Proof.
@@ -476,6 +519,18 @@ Theorem minimize_model_agrees : forall n P oc,
 Proof.
   intros n P oc. unfold minimize_model, optimal. rewrite minimize_run_agrees.
   destruct (optimal_run solve n P oc); reflexivity.
+Qed.
+
+Theorem minimize_correct : forall n P (c : cost), cost_wf n c = true ->
+  match minimize_run solve n P (Some c) with
+  | MRDone w None => w = -1 /\ ~ PSatisfiable n P
+  | MRDone w (Some m) => is_optimum n P c m /\ w = cost_of m c
+  | _ => False
+  end.
+Proof.
+  intros n P c Hwf. rewrite minimize_run_agrees.
+  destruct (optimal_run_correct n P c Hwf) as [r [s [E H]]]. rewrite E.
+  destruct r as [|m w]; cbn [oweight omodel]; tauto.
 Qed.
 
 Lemma optimum_min_dec : forall n P (c : cost) m,
@@ -495,58 +550,34 @@ Proof.
   exists m. auto.
 Qed.
 
-Theorem optimal_min_dec : forall n P (c : cost),
-  nonneg_terms c = true -> cost_wf n c = true ->
+Theorem optimal_min_dec : forall n P (c : cost), cost_wf n c = true ->
   min_dec n P c =
   match fst (optimal solve n P (Some c)) with OUnsat => None | OSat _ w => Some w end.
 Proof.
-  intros n P c Hn Hwf. pose proof (optimal_correct n P c Hn Hwf) as H.
+  intros n P c Hwf. pose proof (optimal_correct n P c Hwf) as H.
   destruct (fst (optimal solve n P (Some c))) as [|m w].
   - apply unsat_min_dec. exact H.
   - destruct H as [Ho Hw]. rewrite Hw. apply optimum_min_dec. exact Ho.
 Qed.
 
-(* Any weights: never out of fuel; a returned model is a model, its weight is its cost,
-   and it is optimal unless the loop stopped on "cost == 0". *)
-Theorem optimal_partial : forall n P (c : cost),
-  optimal_run solve n P (Some c) <> RFuel /\
-  forall m w s, optimal_run solve n P (Some c) = RDone (OSat m w) s ->
-    length m = n /\ sat_problem m P = true /\ w = cost_of m c /\
-    (w = 0 \/ is_optimum n P c m) /\ stream_ok n P c s (OSat m w).
-Proof.
-  intros n P c. pose proof (optimal_run_spec n P c) as H. split.
-  - intro E. rewrite E in H. exact H.
-  - intros m w s E. rewrite E in H. unfold run_spec in H.
-    destruct H as [Hw [Hl [Hs [Hb Hst]]]].
-    split; [exact Hl|]. split; [exact Hs|]. split; [exact Hw|]. split; [|exact Hst].
-    destruct Hb as [H0|Hb]; [left; exact H0|right]. split; [exact Hl|]. split; [exact Hs|exact Hb].
-Qed.
-
 End Entry.
 
 (* ------------------------------------------------------------------ *)
-(* Negative weights (accepted by ParseOPB in the "min:" line): the stop test
-   "cost == 0" (solver.go:1019, 1086) is wrong, and NewPBClause panics when
-   maxCost - cost + 1 < 1 (clause.go:66). *)
+(* Negative weights (accepted by ParseOPB in the "min:" line).  Before the repair
+   9390e95 of /repo the loop stopped on "cost == 0" and handed the raw weights to
+   NewPBClause: the first instance returned [false] with cost 0, the second one
+   panicked ("Invalid cardinality value").  The same witnesses now: *)
 
-Theorem negative_weight_refuted :
-  exists n P (c : cost) m w,
-    cost_wf n c = true /\
-    fst (optimal_ref n P (Some c)) = OSat m w /\ minimize_ref n P (Some c) = w /\
-    ~ is_optimum n P c m.
-Proof.
-  exists 1%nat, [], [(-1, 1)], [false], 0.
-  split; [reflexivity|]. split; [vm_compute; reflexivity|]. split; [vm_compute; reflexivity|].
-  intros [_ [_ H]]. specialize (H [true] eq_refl eq_refl). vm_compute in H. apply H. reflexivity.
-Qed.
+Lemma negative_weight_ok_1 :
+  cost_wf 1 [(-1, 1)] = true /\
+  optimal_ref 1 [] (Some [(-1, 1)]) = (OSat [true] (-1), [OSat [false] 0; OSat [true] (-1)]) /\
+  minimize_ref 1 [] (Some [(-1, 1)]) = -1 /\
+  minimize_model_ref 1 [] (Some [(-1, 1)]) = Some [true].
+Proof. repeat split; vm_compute; reflexivity. Qed.
 
-Theorem negative_weight_panics :
-  exists n P (c : cost) s,
-    cost_wf n c = true /\ PSatisfiable n P /\
-    optimal_run_ref n P (Some c) = RPanic s /\ minimize_run_ref n P (Some c) = MRPanic.
-Proof.
-  exists 2%nat, [PBC [(1, 1)] 1], [(1, 1); (-1, 2)], [OSat [true; false] 1].
-  split; [reflexivity|]. split.
-  - exists [true; false]. split; reflexivity.
-  - split; vm_compute; reflexivity.
-Qed.
+Lemma negative_weight_ok_2 :
+  cost_wf 2 [(1, 1); (-1, 2)] = true /\
+  optimal_ref 2 [PBC [(1, 1)] 1] (Some [(1, 1); (-1, 2)]) =
+    (OSat [true; true] 0, [OSat [true; false] 1; OSat [true; true] 0]) /\
+  minimize_ref 2 [PBC [(1, 1)] 1] (Some [(1, 1); (-1, 2)]) = 0.
+Proof. repeat split; vm_compute; reflexivity. Qed.
